@@ -413,7 +413,11 @@ func (b *Builder) findRegistryPackageSource(ctx context.Context, sourceAddr sour
 
 		var versionDeprecation *ModulePackageVersionDeprecation
 		for _, v := range availablePackageInfos {
-			if selectedVersion.Same(v.Version) {
+			// The selected version is one of the offered ones, so an exact
+			// comparison finds its own entry. Comparing by precedence only
+			// would pick up the note of another entry that differs in build
+			// metadata.
+			if selectedVersion == v.Version {
 				versionDeprecation = v.Deprecation
 				break
 			}
